@@ -60,43 +60,33 @@ theorem charged_used_mem (p c : Frame) (ht : p.trackMem = true) :
   show (chargeCpu p c.used.Cpu).used.Memory + c.used.Memory = _
   rw [h1.2.2.2.2.2.1]
 
-/-- the test of propagateTermination succeeds for a child that inherited all its parent had left -/
-theorem propagate_cpu_fires {p c : Frame} (hp : FrameOk p) (hl : p.live = true) (hL : p.hard.Cpu ≠ 0#64)
-    (hc : c.hard.Cpu = (p.hard.Remove p.used).Cpu) :
+theorem afterBody_inh (ex : Exit) (s : St) :
+    (afterBody ex s).cur.inhCpu = s.cur.inhCpu ∧ (afterBody ex s).cur.inhMem = s.cur.inhMem := by
+  unfold afterBody; split <;> exact ⟨rfl, rfl⟩
+
+/-- a bracket without a limit of its own under a limited parent is flagged as inheriting -/
+theorem child_inh_cpu (f : Frame) (d : CtxDef) (hd : d.hard.Cpu = 0#64) (hL : f.hard.Cpu ≠ 0#64) :
+    (f.child d).inhCpu = true := by
+  show (BitVec.ult 0#64 f.hard.Cpu && !(smallerLimit d.hard.Cpu (f.hard.Remove f.used).Cpu)) = true
+  rw [hd, smallerLimit_zero, (ult_zero_iff _).mpr hL]; rfl
+
+theorem child_inh_mem (f : Frame) (d : CtxDef) (hd : d.hard.Memory = 0#64) (hL : f.hard.Memory ≠ 0#64) :
+    (f.child d).inhMem = true := by
+  show (BitVec.ult 0#64 f.hard.Memory && !(smallerLimit d.hard.Memory (f.hard.Remove f.used).Memory)) = true
+  rw [hd, smallerLimit_zero, (ult_zero_iff _).mpr hL]; rfl
+
+/-- propagateTermination fires for a child flagged as inheriting, whenever the parent is live -/
+theorem propagate_cpu_fires {p c : Frame} (hl : p.live = true) (hc : c.inhCpu = true) :
     (charged p c).propagate c.popped .cpu = ((charged p c).kill, .terminated) := by
   have hs := charged_same p c
-  have hu : p.used.Cpu.toNat < p.hard.Cpu.toNat := by
-    rcases hp.cpu with h | h
-    · exact absurd h hL
-    · exact h
-  have hrem := Remove_Cpu_eq p.hard p.used (Nat.le_of_lt hu)
-  have hcu := charged_used_cpu p c (hp.tcpu hL)
-  have hpp := popped_same c
-  simp only [Frame.propagate]
-  have h1 : BitVec.ult 0#64 (charged p c).hard.Cpu = true := by rw [hs.1]; exact (ult_zero_iff _).mpr hL
-  have h2 : (c.popped.hard.Cpu == (charged p c).hard.Cpu - ((charged p c).used.Cpu - c.popped.used.Cpu)) = true := by
-    rw [hpp.1, hpp.2, hs.1, hcu, hc, hrem, BitVec.add_sub_cancel]; exact beq_self_eq_true _
   have h3 : (charged p c).live = true := by unfold Frame.live; rw [hs.2.2.2.1]; exact hl
-  rw [h1, h2, h3]; rfl
+  simp only [Frame.propagate, (popped_inh c).1, hc, h3]; rfl
 
-theorem propagate_mem_fires {p c : Frame} (hp : FrameOk p) (hl : p.live = true) (hL : p.hard.Memory ≠ 0#64)
-    (hc : c.hard.Memory = (p.hard.Remove p.used).Memory) :
+theorem propagate_mem_fires {p c : Frame} (hl : p.live = true) (hc : c.inhMem = true) :
     (charged p c).propagate c.popped .mem = ((charged p c).kill, .terminated) := by
   have hs := charged_same p c
-  have hu : p.used.Memory.toNat < p.hard.Memory.toNat := by
-    rcases hp.mem with h | h
-    · exact absurd h hL
-    · exact h
-  have hrem := Remove_Memory_eq p.hard p.used (Nat.le_of_lt hu)
-  have hcu := charged_used_mem p c (hp.tmem hL)
-  have hpp := popped_same c
-  simp only [Frame.propagate]
-  have h1 : BitVec.ult 0#64 (charged p c).hard.Memory = true := by rw [hs.1]; exact (ult_zero_iff _).mpr hL
-  have h2 : (c.popped.hard.Memory ==
-      (charged p c).hard.Memory - ((charged p c).used.Memory - c.popped.used.Memory)) = true := by
-    rw [hpp.1, hpp.2, hs.1, hcu, hc, hrem, BitVec.add_sub_cancel]; exact beq_self_eq_true _
   have h3 : (charged p c).live = true := by unfold Frame.live; rw [hs.2.2.2.1]; exact hl
-  rw [h1, h2, h3]; rfl
+  simp only [Frame.propagate, (popped_inh c).2, hc, h3]; rfl
 
 /-- **A bracket without a CPU limit of its own cannot absorb a CPU termination**: whatever its body
 is, if the body is terminated for CPU, the bracket's parent (when it is CPU-limited) is terminated
@@ -116,28 +106,17 @@ theorem limitless_bracket_propagates_cpu (a : Acc) (d : CtxDef) (body : List Ite
     rw [hr] at gb hk
     simp only at hk; subst hk
     obtain ⟨p', ps', _, hlp, hlps, hc2, hcp, hp, hpl, hrest, hrun⟩ := call_unfold a d body a1 _ hr gb hl
-    have hsame := afterBody_same (Exit.killed .cpu) a1.st
-    have hps := hlp.same
-    have hhard : (afterBody (Exit.killed .cpu) a1.st).cur.hard.Cpu = (p'.hard.Remove p'.used).Cpu := by
-      rw [hsame.2.1, gb.hard]
-      have : (a.st.cur.child d).hard.Cpu = (a.st.cur.hard.Remove a.st.cur.used).Cpu := child_inherits_cpu a.st.cur d hd
-      show (a.st.cur.child d).hard.Cpu = _
-      rw [this]
-      apply BitVec.eq_of_toNat_eq; rw [Remove_Cpu, Remove_Cpu, hps.1, hps.2.2.2.2.2.2.2.1]
-    have hfire := propagate_cpu_fires (c := (afterBody (Exit.killed .cpu) a1.st).cur) hp hpl
-      (by rw [hps.1]; exact hL) hhard
+    have hflag : (afterBody (Exit.killed .cpu) a1.st).cur.inhCpu = true := by
+      rw [(afterBody_inh _ a1.st).1, gb.inh.1]; exact child_inh_cpu a.st.cur d hd hL
+    have hfire := propagate_cpu_fires (c := (afterBody (Exit.killed .cpu) a1.st).cur) hpl hflag
     rw [hrun, afterPop_killed_fire _ _ _ _ _ _ hfire]
     exact ⟨rfl, rfl, hlps, rfl, rfl⟩
 
-/-- the same for memory — provided the body did not release memory of the enclosing context: a
-release that cascades into the parent (8007e69) leaves the bracket with a limit that is no longer
-"all the parent has left", and the test of propagateTermination (an equality) then fails: see
-`stale_limit_absorbs_counterexample` in Props/C06. -/
+/-- the same for memory — with the flag of 52f8e49 no proviso is needed: releases that cascade into
+the parent during the body (8007e69) do not change the flag recorded at push. -/
 theorem limitless_bracket_propagates_mem (a : Acc) (d : CtxDef) (body : List Item) (hw : wfBody body = true)
     (hi : Inv a.st) (hl : a.st.cur.live = true) (hd : d.hard.Memory = 0#64) (hL : a.st.cur.hard.Memory ≠ 0#64)
-    (hk : (runBody { a with st := push a.st d } body).2 = .killed .mem)
-    (hund : ∀ p' ps', (runBody { a with st := push a.st d } body).1.st.parents = p' :: ps' →
-      p'.used.Memory = a.st.cur.used.Memory) :
+    (hk : (runBody { a with st := push a.st d } body).2 = .killed .mem) :
     (runItem a (.call d body)).2 = .killed .mem ∧
     (runItem a (.call d body)).1.st.cur.status = StatusKilled ∧
     LowerL (runItem a (.call d body)).1.st.parents a.st.parents ∧
@@ -146,21 +125,12 @@ theorem limitless_bracket_propagates_mem (a : Acc) (d : CtxDef) (body : List Ite
   have gb := good_body { a with st := push a.st d } body hw (inv_step (.push d) hi hl) rfl
   cases hr : runBody { a with st := push a.st d } body with
   | mk a1 ex =>
-    rw [hr] at gb hk hund
+    rw [hr] at gb hk
     simp only at hk; subst hk
-    obtain ⟨p', ps', hpe, hlp, hlps, hc2, hcp, hp, hpl, hrest, hrun⟩ := call_unfold a d body a1 _ hr gb hl
-    have hsame := afterBody_same (Exit.killed .mem) a1.st
-    have hps := hlp.same
-    have hum := hund p' ps' hpe
-    have hhard : (afterBody (Exit.killed .mem) a1.st).cur.hard.Memory = (p'.hard.Remove p'.used).Memory := by
-      rw [hsame.2.1, gb.hard]
-      have : (a.st.cur.child d).hard.Memory = (a.st.cur.hard.Remove a.st.cur.used).Memory :=
-        child_inherits_mem a.st.cur d hd
-      show (a.st.cur.child d).hard.Memory = _
-      rw [this]
-      apply BitVec.eq_of_toNat_eq; rw [Remove_Memory, Remove_Memory, hps.1, hum]
-    have hfire := propagate_mem_fires (c := (afterBody (Exit.killed .mem) a1.st).cur) hp hpl
-      (by rw [hps.1]; exact hL) hhard
+    obtain ⟨p', ps', _, hlp, hlps, hc2, hcp, hp, hpl, hrest, hrun⟩ := call_unfold a d body a1 _ hr gb hl
+    have hflag : (afterBody (Exit.killed .mem) a1.st).cur.inhMem = true := by
+      rw [(afterBody_inh _ a1.st).2, gb.inh.2]; exact child_inh_mem a.st.cur d hd hL
+    have hfire := propagate_mem_fires (c := (afterBody (Exit.killed .mem) a1.st).cur) hpl hflag
     rw [hrun, afterPop_killed_fire _ _ _ _ _ _ hfire]
     exact ⟨rfl, rfl, hlps, rfl, rfl⟩
 
@@ -183,47 +153,20 @@ theorem own_limit_dies_alone (a : Acc) (d : CtxDef) (body : List Item) (hw : wfB
     simp only at hk; subst hk
     obtain ⟨p', ps', _, hlp, hlps, hc2, hcp, hp, hpl, hrest, hrun⟩ := call_unfold a d body a1 _ hr gb hl
     have hsame := afterBody_same (Exit.killed .cpu) a1.st
-    have hps := hlp.same
     have hs := charged_same p' (afterBody (Exit.killed .cpu) a1.st).cur
-    have hpp := popped_same (afterBody (Exit.killed .cpu) a1.st).cur
-    have htight' : p'.hard.Cpu = 0#64 ∨ d.hard.Cpu.toNat < p'.hard.Cpu.toNat - p'.used.Cpu.toNat := by
-      rw [hps.1, hps.2.2.2.2.2.2.2.1]; exact htight
-    -- the child's hard limit is its own
-    have hch : (afterBody (Exit.killed .cpu) a1.st).cur.hard.Cpu = d.hard.Cpu := by
-      rw [hsame.2.1, gb.hard]
-      show ((a.st.cur.hard.Remove a.st.cur.used).Merge d.hard).Cpu = _
-      rw [Merge_Cpu]
-      have : smallerLimit d.hard.Cpu (a.st.cur.hard.Remove a.st.cur.used).Cpu = true := by
-        rw [smallerLimit_iff]; refine ⟨hd, ?_⟩
-        rcases htight with h0 | hlt
-        · left; apply BitVec.eq_of_toNat_eq; rw [Remove_Cpu, h0]; simp
-        · right; rw [Remove_Cpu]; exact hlt
-      rw [this]; rfl
+    -- the child is not flagged: its limit is its own
+    have hflag : (afterBody (Exit.killed .cpu) a1.st).cur.inhCpu = false := by
+      rw [(afterBody_inh _ a1.st).1, gb.inh.1]
+      show (BitVec.ult 0#64 a.st.cur.hard.Cpu && !(smallerLimit d.hard.Cpu (a.st.cur.hard.Remove a.st.cur.used).Cpu)) = false
+      rcases htight with h0 | hlt
+      · rw [h0]; rfl
+      · have : smallerLimit d.hard.Cpu (a.st.cur.hard.Remove a.st.cur.used).Cpu = true := by
+          rw [smallerLimit_iff]; exact ⟨hd, Or.inr (by rw [Remove_Cpu]; exact hlt)⟩
+        rw [this]; simp
     have hnofire : (charged p' (afterBody (Exit.killed .cpu) a1.st).cur).propagate
         (afterBody (Exit.killed .cpu) a1.st).cur.popped .cpu =
         (charged p' (afterBody (Exit.killed .cpu) a1.st).cur, .ok) := by
-      simp only [Frame.propagate]
-      rcases htight' with h0 | hlt
-      · have : BitVec.ult 0#64 (charged p' (afterBody (Exit.killed .cpu) a1.st).cur).hard.Cpu = false := by
-          rw [hs.1, h0]; rfl
-        rw [this]; rfl
-      · have hL : p'.hard.Cpu ≠ 0#64 := by rw [ne_zero_iff]; omega
-        have hu : p'.used.Cpu.toNat < p'.hard.Cpu.toNat := by
-          rcases hp.cpu with h | h
-          · exact absurd h hL
-          · exact h
-        have hcu := charged_used_cpu p' (afterBody (Exit.killed .cpu) a1.st).cur (hp.tcpu hL)
-        have hne : ((afterBody (Exit.killed .cpu) a1.st).cur.popped.hard.Cpu ==
-            (charged p' (afterBody (Exit.killed .cpu) a1.st).cur).hard.Cpu -
-              ((charged p' (afterBody (Exit.killed .cpu) a1.st).cur).used.Cpu -
-                (afterBody (Exit.killed .cpu) a1.st).cur.popped.used.Cpu)) = false := by
-          rw [hpp.1, hpp.2, hs.1, hcu, BitVec.add_sub_cancel, hch]
-          apply beq_false_of_ne
-          intro heq
-          have := congrArg BitVec.toNat heq
-          rw [BitVec.toNat_sub_of_le (by simpa [BitVec.le_def] using Nat.le_of_lt hu)] at this
-          omega
-        rw [hne]; simp
+      simp only [Frame.propagate, (popped_inh _).1, hflag]; rfl
     have hlive3 : (charged p' (afterBody (Exit.killed .cpu) a1.st).cur).live = true := by
       unfold Frame.live; rw [hs.2.2.2.1]; exact hpl
     rw [hrun, afterPop_killed_nofire _ _ _ _ _ _ hnofire]
@@ -504,21 +447,36 @@ theorem releaseStack_local (f : Frame) (rest : List Frame) (n : BitVec 64) (h0 :
     have : BitVec.ule n f.used.Memory = true := by simpa [BitVec.ule] using hn
     rw [this, if_pos rfl]
 
-theorem step_relMem_local (s : St) (n : BitVec 64) (h0 : s.cur.hard.Memory ≠ 0#64)
-    (hn : n.toNat ≤ s.cur.used.Memory.toNat) :
-    step s (.relMem n) =
-      (⟨{ s.cur with used := { s.cur.used with Memory := s.cur.used.Memory - n } }, s.parents⟩, .ok) := by
-  show ((⟨(releaseStack s.cur s.parents n).1.1, (releaseStack s.cur s.parents n).1.2⟩ : St),
-    (releaseStack s.cur s.parents n).2) = _
-  rw [releaseStack_local s.cur s.parents n h0 hn]
+/-- a context without hard memory limit ignores every release -/
+theorem releaseStack_unlimited (f : Frame) (rest : List Frame) (n : BitVec 64) (h0 : f.hard.Memory = 0#64) :
+    releaseStack f rest n = ((f, rest), .ok) := by
+  cases rest with
+  | nil =>
+    show (((f.releaseMem n).1, []), (f.releaseMem n).2) = _
+    rcases releaseMem_cases f n with ⟨_, e⟩ | ⟨hne, _⟩ | ⟨hne, _⟩
+    · rw [e]
+    · exact absurd h0 hne
+    · exact absurd h0 hne
+  | cons p ps =>
+    unfold releaseStack
+    have : BitVec.ult 0#64 f.hard.Memory = false := by rw [h0]; rfl
+    rw [this]; rfl
 
-/-- what a run of a memory program whose brackets release only their own memory guarantees, in a
-memory-limited frame that was not hard-stopped -/
-structure MemRun (a : Acc) (b' : Nat) (r : Acc × Exit) : Prop where
+/-- an uncovered release in a limited context drains it and goes on in the parent -/
+theorem releaseStack_cascade (f p : Frame) (ps : List Frame) (n : BitVec 64) (h0 : f.hard.Memory ≠ 0#64)
+    (hn : f.used.Memory.toNat < n.toNat) :
+    releaseStack f (p :: ps) n =
+      (({ f with used := { f.used with Memory := 0#64 } },
+        (releaseStack p ps (n - f.used.Memory)).1.1 :: (releaseStack p ps (n - f.used.Memory)).1.2),
+       (releaseStack p ps (n - f.used.Memory)).2) := by
+  conv => lhs; unfold releaseStack
+  have : BitVec.ule n f.used.Memory = false := by simp [BitVec.ule]; omega
+  rw [(ult_zero_iff _).mpr h0, this]; rfl
+
+/-- what a run of a memory program guarantees in a memory-limited frame that was not hard-stopped -/
+structure MemRun (r : Acc × Exit) : Prop where
   nostop : r.1.st.cur.hardStopped = false
   cause : ∀ res, r.2 = .killed res → res = .mem
-  parents : r.1.st.parents = a.st.parents
-  bal : r.2 = .done → b' ≤ r.1.st.cur.used.Memory.toNat
 
 theorem child_none_stop (p : Frame) : (p.child CtxDef.none).hardStopped = p.hardStopped := rfl
 
@@ -529,92 +487,61 @@ theorem child_none_mem_ne {p : Frame} (hpo : FrameOk p) (h0 : p.hard.Memory ≠ 
   · exact absurd h h0
   · omega
 
-theorem child_none_mem_le (p : Frame) : (p.child CtxDef.none).hard.Memory.toNat ≤ p.hard.Memory.toNat := by
-  rw [child_inherits_mem p CtxDef.none rfl, Remove_Memory]; omega
-
 mutual
-  theorem localRel_mono_item {B B' b : Nat} (hle : B ≤ B') (it : Item) (h : it.localRel B' b) : it.localRel B b := by
-    match it with
-    | .op o => cases o <;> first | trivial | (unfold Item.localRel at h ⊢; omega)
-    | .err => trivial
-    | .call d body => unfold Item.localRel at h ⊢; exact localRel_mono_body' hle body h
-  theorem localRel_mono_body' {B B' b : Nat} (hle : B ≤ B') (body : List Item) (h : bodyLocalRel B' b body) :
-      bodyLocalRel B b body := by
+  theorem memrun_body (a : Acc) (body : List Item) (hw : bodyPcallMem body = true) (hi : Inv a.st)
+      (hl : a.st.cur.live = true) (hs : a.st.cur.hardStopped = false) (h0 : a.st.cur.hard.Memory ≠ 0#64) :
+      MemRun (runBody a body) := by
     match body with
-    | [] => trivial
-    | it :: rest =>
-      unfold bodyLocalRel at h ⊢; exact ⟨localRel_mono_item hle it h.1, localRel_mono_body' hle rest h.2⟩
-end
-
-def bodyBal (b : Nat) : List Item → Nat
-  | [] => b
-  | it :: rest => bodyBal (it.bal b) rest
-
-mutual
-  theorem memrun_body (B b : Nat) (a : Acc) (body : List Item) (hw : bodyPcallMem body = true)
-      (hlr : bodyLocalRel B b body) (hi : Inv a.st)
-      (hl : a.st.cur.live = true) (hs : a.st.cur.hardStopped = false) (h0 : a.st.cur.hard.Memory ≠ 0#64)
-      (hB : a.st.cur.hard.Memory.toNat ≤ B) (hb : b ≤ a.st.cur.used.Memory.toNat) :
-      MemRun a (bodyBal b body) (runBody a body) := by
-    match body with
-    | [] => exact ⟨hs, (fun _ h => nomatch h), rfl, fun _ => hb⟩
+    | [] => exact ⟨hs, (fun _ h => nomatch h)⟩
     | it :: rest =>
       have hw' : it.pcallMem = true ∧ bodyPcallMem rest = true := by
         have := hw; unfold bodyPcallMem at this; simpa using this
-      have hlr' : it.localRel B b ∧ bodyLocalRel B (it.bal b) rest := by
-        have := hlr; unfold bodyLocalRel at this; exact this
-      have m1 := memrun_item B b a it hw'.1 hlr'.1 hi hl hs h0 hB hb
+      have m1 := memrun_item a it hw'.1 hi hl hs h0
       have g1 := good_item a it (pcallMem_wf it hw'.1) hi hl
       unfold runBody
-      show MemRun a (bodyBal (it.bal b) rest) _
       cases hr : runItem a it with
       | mk a1 e1 =>
         rw [hr] at m1 g1
         cases e1 with
         | done =>
-          have m2 := memrun_body B (it.bal b) a1 rest hw'.2 hlr'.2 g1.inv (g1.live (fun _ h => nomatch h)) m1.nostop
-            (by rw [g1.hard]; exact h0) (by rw [g1.hard]; exact hB) (m1.bal rfl)
-          exact ⟨m2.nostop, m2.cause, m2.parents.trans m1.parents, m2.bal⟩
-        | error => exact ⟨m1.nostop, m1.cause, m1.parents, (fun h => nomatch h)⟩
-        | killed r => exact ⟨m1.nostop, m1.cause, m1.parents, (fun h => nomatch h)⟩
-        | crashed => exact ⟨m1.nostop, m1.cause, m1.parents, (fun h => nomatch h)⟩
+          exact memrun_body a1 rest hw'.2 g1.inv (g1.live (fun _ h => nomatch h)) m1.nostop
+            (by rw [g1.hard]; exact h0)
+        | error => exact ⟨m1.nostop, m1.cause⟩
+        | killed r => exact ⟨m1.nostop, m1.cause⟩
+        | crashed => exact ⟨m1.nostop, m1.cause⟩
 
-  theorem memrun_item (B b : Nat) (a : Acc) (it : Item) (hw : it.pcallMem = true) (hlr : it.localRel B b)
-      (hi : Inv a.st)
-      (hl : a.st.cur.live = true) (hs : a.st.cur.hardStopped = false) (h0 : a.st.cur.hard.Memory ≠ 0#64)
-      (hB : a.st.cur.hard.Memory.toNat ≤ B) (hb : b ≤ a.st.cur.used.Memory.toNat) :
-      MemRun a (it.bal b) (runItem a it) := by
+  theorem memrun_item (a : Acc) (it : Item) (hw : it.pcallMem = true) (hi : Inv a.st)
+      (hl : a.st.cur.live = true) (hs : a.st.cur.hardStopped = false) (h0 : a.st.cur.hard.Memory ≠ 0#64) :
+      MemRun (runItem a it) := by
     match it with
     | .err => simp [Item.pcallMem] at hw
     | .op o =>
       cases o with
       | reqMem n =>
-        have hn : n.toNat + B ≤ 2 ^ 64 := by unfold Item.localRel at hlr; exact hlr
-        have hu : a.st.cur.used.Memory.toNat < a.st.cur.hard.Memory.toNat := by
-          rcases hi.1.mem with h | h
-          · exact absurd h h0
-          · exact h
         rw [runItem_op]
-        show MemRun a (b + n.toNat) _
         have hstep : step a.st (.reqMem n) = (⟨(a.st.cur.requireMem n).1, a.st.parents⟩, (a.st.cur.requireMem n).2) := rfl
         rw [hstep]
         rcases requireMem_live a.st.cur n hl with ⟨ht, _⟩ | ⟨_, hk, e⟩ | ⟨_, _, _, e⟩
         · rw [hi.1.tmem h0] at ht; cases ht
         · rw [e]
-          refine ⟨hs, fun res h => ?_, rfl, (fun h => nomatch h)⟩
+          refine ⟨hs, fun res h => ?_⟩
           simp only at h
           injection h with h
           rw [← h]; simp [killCause, hs]
-        · rw [e]
-          refine ⟨hs, (fun _ h => nomatch h), rfl, fun _ => ?_⟩
-          show b + n.toNat ≤ (a.st.cur.used.Memory + n).toNat
-          rw [BitVec.toNat_add, Nat.mod_eq_of_lt (by omega)]; omega
+        · rw [e]; exact ⟨hs, (fun _ h => nomatch h)⟩
       | relMem n =>
-        have hn : n.toNat ≤ b := by unfold Item.localRel at hlr; exact hlr
-        rw [runItem_op, step_relMem_local a.st n h0 (by omega)]
-        refine ⟨hs, (fun _ h => nomatch h), rfl, fun _ => ?_⟩
-        show b - n.toNat ≤ (a.st.cur.used.Memory - n).toNat
-        rw [BitVec.toNat_sub_of_le (by simp [BitVec.le_def]; omega)]; omega
+        rw [runItem_op]
+        have hlow := releaseStack_lower a.st.cur a.st.parents n
+        have hnt := releaseStack_not_terminated a.st.cur a.st.parents n
+        refine ⟨?_, fun res h => ?_⟩
+        · show (releaseStack a.st.cur a.st.parents n).1.1.hardStopped = false
+          rw [hlow.1.hardStopped]; exact hs
+        · exfalso
+          have hst : (step a.st (.relMem n)).2 = (releaseStack a.st.cur a.st.parents n).2 := rfl
+          cases hc : (releaseStack a.st.cur a.st.parents n).2 with
+          | ok => simp only [hst, hc] at h; cases h
+          | crash => simp only [hst, hc] at h; cases h
+          | terminated => exact hnt hc
       | push d => simp [Item.pcallMem] at hw
       | pop => simp [Item.pcallMem] at hw
       | reqCpu n => simp [Item.pcallMem] at hw
@@ -624,45 +551,33 @@ mutual
       have hw' : d = CtxDef.none ∧ bodyPcallMem body = true := by
         have := hw; unfold Item.pcallMem at this; simpa using this
       obtain ⟨rfl, hwb⟩ := hw'
-      have hlrb : bodyLocalRel B 0 body := by unfold Item.localRel at hlr; exact hlr
       have hwf := bodyPcallMem_wf body hwb
       have hi0 : Inv (push a.st CtxDef.none) := inv_step (.push CtxDef.none) hi hl
-      have mb := memrun_body B 0 { a with st := push a.st CtxDef.none } body hwb hlrb hi0 rfl hs
-        (child_none_mem_ne hi.1 h0) (Nat.le_trans (child_none_mem_le a.st.cur) hB) (Nat.zero_le _)
+      have mb := memrun_body { a with st := push a.st CtxDef.none } body hwb hi0 rfl hs
+        (child_none_mem_ne hi.1 h0)
       have gb := good_body { a with st := push a.st CtxDef.none } body hwf hi0 rfl
-      show MemRun a b _
       cases hr : runBody { a with st := push a.st CtxDef.none } body with
       | mk a1 ex =>
         rw [hr] at mb gb
         obtain ⟨p', ps', hpe, hlp, hlps, hc2, hcp, hp, hpl, hrest, hrun⟩ :=
           call_unfold a CtxDef.none body a1 ex hr gb hl
-        -- no release of the body reached the caller: the frame below the child is the caller's, unchanged
-        have hpar : a1.st.parents = a.st.cur :: a.st.parents := mb.parents
-        have hpp : p' = a.st.cur ∧ ps' = a.st.parents := by
-          rw [hpe] at hpar; injection hpar with h1 h2; exact ⟨h1, h2⟩
-        obtain ⟨rfl, rfl⟩ := hpp
-        have hsame := charged_same a.st.cur (afterBody ex a1.st).cur
-        have hstop : (charged a.st.cur (afterBody ex a1.st).cur).hardStopped = false := by
-          unfold Frame.hardStopped; rw [hsame.2.2.2.2.1]; exact hs
-        have hbal : b ≤ (charged a.st.cur (afterBody ex a1.st).cur).used.Memory.toNat := by
-          rw [charged_used_mem _ _ (hi.1.tmem h0), (charge_mem_below hc2 hp hcp).2 h0]; omega
+        have hsame := charged_same p' (afterBody ex a1.st).cur
+        have hstop : (charged p' (afterBody ex a1.st).cur).hardStopped = false := by
+          unfold Frame.hardStopped; rw [hsame.2.2.2.2.1, hlp.same.2.2.2.2.1]; exact hs
         cases ex with
         | killed res =>
           have hres := mb.cause res rfl
           subst hres
           have hk : (runBody { a with st := push a.st CtxDef.none } body).2 = .killed .mem := by rw [hr]
-          have hund : ∀ p' ps', (runBody { a with st := push a.st CtxDef.none } body).1.st.parents = p' :: ps' →
-              p'.used.Memory = a.st.cur.used.Memory := by
-            intro q qs hq; rw [hr] at hq; simp only at hq; rw [hpe] at hq; injection hq with h1 _; rw [← h1]
-          obtain ⟨h1, h2, _, _, _⟩ := limitless_bracket_propagates_mem a CtxDef.none body hwf hi hl rfl h0 hk hund
-          have hfire := propagate_mem_fires (c := (afterBody (Exit.killed .mem) a1.st).cur) hp hl h0
-            (by rw [(afterBody_same _ a1.st).2.1, gb.hard]; exact child_inherits_mem a.st.cur CtxDef.none rfl)
-          refine ⟨?_, fun res h => by rw [h1] at h; injection h with h; exact h.symm, ?_, fun h => by rw [h1] at h; cases h⟩
-          · rw [hrun, afterPop_killed_fire _ _ _ _ _ _ hfire]; exact hstop
-          · rw [hrun, afterPop_killed_fire _ _ _ _ _ _ hfire]
-        | done => rw [hrun]; exact ⟨hstop, (fun _ h => nomatch h), rfl, fun _ => hbal⟩
-        | error => rw [hrun]; exact ⟨hstop, (fun _ h => nomatch h), rfl, fun _ => hbal⟩
-        | crashed => rw [hrun]; exact ⟨hstop, (fun _ h => nomatch h), rfl, (fun h => nomatch h)⟩
+          obtain ⟨h1, _, _, _, _⟩ := limitless_bracket_propagates_mem a CtxDef.none body hwf hi hl rfl h0 hk
+          have hflag : (afterBody (Exit.killed .mem) a1.st).cur.inhMem = true := by
+            rw [(afterBody_inh _ a1.st).2, gb.inh.2]; exact child_inh_mem a.st.cur CtxDef.none rfl h0
+          have hfire := propagate_mem_fires (c := (afterBody (Exit.killed .mem) a1.st).cur) hpl hflag
+          refine ⟨?_, fun res h => by rw [h1] at h; injection h with h; exact h.symm⟩
+          rw [hrun, afterPop_killed_fire _ _ _ _ _ _ hfire]; exact hstop
+        | done => rw [hrun]; exact ⟨hstop, (fun _ h => nomatch h)⟩
+        | error => rw [hrun]; exact ⟨hstop, (fun _ h => nomatch h)⟩
+        | crashed => rw [hrun]; exact ⟨hstop, (fun _ h => nomatch h)⟩
 end
 
 /-! ### two runs of the same memory program under limits `M' ≤ M` -/
@@ -684,8 +599,14 @@ structure RelF (δ : Nat) (f f' : Frame) : Prop where
   hmem : f.hard.Memory.toNat = f'.hard.Memory.toNat + δ
   hmem0 : f'.hard.Memory ≠ 0#64
 
-/-- two states whose active frames are related (the frames below are not touched by a body) -/
-def RelS (δ : Nat) (s s' : St) : Prop := RelF δ s.cur s'.cur
+/-- the frames below: related pairwise as long as they are memory-limited; from the first context
+without hard memory limit on (which absorbs every release) the two stacks are identical -/
+inductive RelL (δ : Nat) : List Frame → List Frame → Prop where
+  | nil : RelL δ [] []
+  | cons {f f' : Frame} {l l' : List Frame} : RelF δ f f' → RelL δ l l' → RelL δ (f :: l) (f' :: l')
+  | absorb (f : Frame) (l : List Frame) : f.hard.Memory = 0#64 → RelL δ (f :: l) (f :: l)
+
+def RelS (δ : Nat) (s s' : St) : Prop := RelF δ s.cur s'.cur ∧ RelL δ s.parents s'.parents
 
 theorem RelF.live {δ : Nat} {f f' : Frame} (h : RelF δ f f') : f.live = f'.live := by
   unfold Frame.live; rw [h.status]
@@ -776,7 +697,7 @@ theorem relF_setUsed {δ : Nat} {f f' : Frame} (h : RelF δ f f') (u : RuntimeRe
 theorem relS_afterBody {δ : Nat} {s s' : St} (ex : Exit) (h : RelS δ s s') :
     RelS δ (afterBody ex s) (afterBody ex s') := by
   unfold afterBody; split
-  · exact relF_setStatus h StatusError
+  · exact ⟨relF_setStatus h.1 StatusError, h.2⟩
   · exact h
 
 theorem relF_chargeCpu {δ : Nat} {p p' : Frame} (hp : RelF δ p p') (n : BitVec 64) :
@@ -831,25 +752,72 @@ theorem sim_req {δ : Nat} {f f' : Frame} (h : RelF δ f f') (hl' : f'.live = tr
     have e2 := requireMem_charge f' n hl' hs' ha'
     rw [e, e2]; exact ⟨rfl, relF_chargeMem h n⟩
 
+theorem relF_setMem {δ : Nat} {f f' : Frame} (h : RelF δ f f') (m : BitVec 64) :
+    RelF δ { f with used := { f.used with Memory := m } } { f' with used := { f'.used with Memory := m } } := by
+  refine ⟨?_, h.status, h.stop, h.flags, h.tc, h.tm, h.hcpu, h.hms, h.scpu, h.sms, h.hmem, h.hmem0⟩
+  show ({ f.used with Memory := m } : RuntimeResources) = { f'.used with Memory := m }
+  rw [h.used]
+
+/-- a release in the two runs cascades identically: same outcome, related stacks -/
+theorem sim_release {δ : Nat} {rest rest' : List Frame} (hl : RelL δ rest rest') :
+    ∀ {f f' : Frame} (n : BitVec 64), RelF δ f f' →
+      (releaseStack f rest n).2 = (releaseStack f' rest' n).2 ∧
+      RelF δ (releaseStack f rest n).1.1 (releaseStack f' rest' n).1.1 ∧
+      RelL δ (releaseStack f rest n).1.2 (releaseStack f' rest' n).1.2 := by
+  induction hl with
+  | nil =>
+    intro f f' n h
+    have hu : f.used.Memory = f'.used.Memory := by rw [h.used]
+    by_cases hn : n.toNat ≤ f'.used.Memory.toNat
+    · rw [releaseStack_local f [] n h.hmem_ne (by rw [hu]; exact hn), releaseStack_local f' [] n h.hmem0 hn, hu]
+      exact ⟨rfl, relF_setMem h _, .nil⟩
+    · have e : releaseStack f [] n = ((f, []), .crash) := by
+        show (((f.releaseMem n).1, []), (f.releaseMem n).2) = _
+        rcases releaseMem_cases f n with ⟨h0, _⟩ | ⟨_, hle, _⟩ | ⟨_, _, e⟩
+        · exact absurd h0 h.hmem_ne
+        · rw [hu] at hle; omega
+        · rw [e]
+      have e' : releaseStack f' [] n = ((f', []), .crash) := by
+        show (((f'.releaseMem n).1, []), (f'.releaseMem n).2) = _
+        rcases releaseMem_cases f' n with ⟨h0, _⟩ | ⟨_, hle, _⟩ | ⟨_, _, e⟩
+        · exact absurd h0 h.hmem0
+        · omega
+        · rw [e]
+      rw [e, e']; exact ⟨rfl, h, .nil⟩
+  | @cons p p' l l' hp hl ih =>
+    intro f f' n h
+    have hu : f.used.Memory = f'.used.Memory := by rw [h.used]
+    by_cases hn : n.toNat ≤ f'.used.Memory.toNat
+    · rw [releaseStack_local f _ n h.hmem_ne (by rw [hu]; exact hn), releaseStack_local f' _ n h.hmem0 hn, hu]
+      exact ⟨rfl, relF_setMem h _, .cons hp hl⟩
+    · rw [releaseStack_cascade f p l n h.hmem_ne (by rw [hu]; omega),
+        releaseStack_cascade f' p' l' n h.hmem0 (by omega), hu]
+      obtain ⟨i1, i2, i3⟩ := ih (n - f'.used.Memory) hp
+      exact ⟨i1, relF_setMem h _, .cons i2 i3⟩
+  | absorb p l hp0 =>
+    intro f f' n h
+    have hu : f.used.Memory = f'.used.Memory := by rw [h.used]
+    by_cases hn : n.toNat ≤ f'.used.Memory.toNat
+    · rw [releaseStack_local f _ n h.hmem_ne (by rw [hu]; exact hn), releaseStack_local f' _ n h.hmem0 hn, hu]
+      exact ⟨rfl, relF_setMem h _, .absorb p l hp0⟩
+    · rw [releaseStack_cascade f p l n h.hmem_ne (by rw [hu]; omega),
+        releaseStack_cascade f' p l n h.hmem0 (by omega), hu, releaseStack_unlimited p l _ hp0]
+      exact ⟨rfl, relF_setMem h _, .absorb p l hp0⟩
+
 mutual
-  theorem sim_body (δ B b : Nat) (a a' : Acc) (body : List Item) (hw : bodyPcallMem body = true)
-      (hlr : bodyLocalRel B b body)
+  theorem sim_body (δ : Nat) (a a' : Acc) (body : List Item) (hw : bodyPcallMem body = true)
       (hr : RelS δ a.st a'.st) (hi : Inv a.st) (hi' : Inv a'.st) (hl' : a'.st.cur.live = true)
-      (hs' : a'.st.cur.hardStopped = false) (hB : a.st.cur.hard.Memory.toNat ≤ B)
-      (hb : b ≤ a'.st.cur.used.Memory.toNat) (hnk : NotKilled (runBody a' body).2) :
+      (hs' : a'.st.cur.hardStopped = false) (hnk : NotKilled (runBody a' body).2) :
       (runBody a body).2 = (runBody a' body).2 ∧ RelS δ (runBody a body).1.st (runBody a' body).1.st := by
     match body with
     | [] => exact ⟨rfl, hr⟩
     | it :: rest =>
       have hw' : it.pcallMem = true ∧ bodyPcallMem rest = true := by
         have := hw; unfold bodyPcallMem at this; simpa using this
-      have hlr' : it.localRel B b ∧ bodyLocalRel B (it.bal b) rest := by
-        have := hlr; unfold bodyLocalRel at this; exact this
-      have hl : a.st.cur.live = true := by rw [hr.live]; exact hl'
+      have hl : a.st.cur.live = true := by rw [hr.1.live]; exact hl'
       have g1 := good_item a it (pcallMem_wf it hw'.1) hi hl
       have g1' := good_item a' it (pcallMem_wf it hw'.1) hi' hl'
-      have hB' : a'.st.cur.hard.Memory.toNat ≤ B := by have := hr.hmem; omega
-      have m1' := memrun_item B b a' it hw'.1 hlr'.1 hi' hl' hs' hr.hmem0 hB' hb
+      have m1' := memrun_item a' it hw'.1 hi' hl' hs' hr.1.hmem0
       have hnk1 : NotKilled (runItem a' it).2 := by
         intro res hk
         have : (runBody a' (it :: rest)).2 = .killed res := by
@@ -857,7 +825,7 @@ mutual
           cases hri : runItem a' it with
           | mk x e => rw [hri] at hk; simp only at hk; subst hk; rfl
         exact hnk res this
-      have s1 := sim_item δ B b a a' it hw'.1 hlr'.1 hr hi hi' hl' hs' hB hb hnk1
+      have s1 := sim_item δ a a' it hw'.1 hr hi hi' hl' hs' hnk1
       unfold runBody at hnk ⊢
       cases hri : runItem a it with
       | mk a1 e1 =>
@@ -871,16 +839,14 @@ mutual
           cases e1 with
           | done =>
             simp only at hnk ⊢
-            exact sim_body δ B (it.bal b) a1 a1' rest hw'.2 hlr'.2 hrel g1.inv g1'.inv
-              (g1'.live (fun _ h => nomatch h)) m1'.nostop (by rw [g1.hard]; exact hB) (m1'.bal rfl) hnk
+            exact sim_body δ a1 a1' rest hw'.2 hrel g1.inv g1'.inv (g1'.live (fun _ h => nomatch h)) m1'.nostop hnk
           | error => exact ⟨rfl, hrel⟩
           | killed r => exact ⟨rfl, hrel⟩
           | crashed => exact ⟨rfl, hrel⟩
 
-  theorem sim_item (δ B b : Nat) (a a' : Acc) (it : Item) (hw : it.pcallMem = true) (hlr : it.localRel B b)
+  theorem sim_item (δ : Nat) (a a' : Acc) (it : Item) (hw : it.pcallMem = true)
       (hr : RelS δ a.st a'.st) (hi : Inv a.st) (hi' : Inv a'.st) (hl' : a'.st.cur.live = true)
-      (hs' : a'.st.cur.hardStopped = false) (hB : a.st.cur.hard.Memory.toNat ≤ B)
-      (hb : b ≤ a'.st.cur.used.Memory.toNat) (hnk : NotKilled (runItem a' it).2) :
+      (hs' : a'.st.cur.hardStopped = false) (hnk : NotKilled (runItem a' it).2) :
       (runItem a it).2 = (runItem a' it).2 ∧ RelS δ (runItem a it).1.st (runItem a' it).1.st := by
     match it with
     | .err => simp [Item.pcallMem] at hw
@@ -896,22 +862,24 @@ mutual
         have hnt : (a'.st.cur.requireMem n).2 ≠ .terminated := by
           intro hc
           exact hnk (killCause a'.st.cur (.reqMem n)) (by simp only [hc])
-        obtain ⟨ho, hrel⟩ := sim_req hr hl' n hnt
-        refine ⟨?_, hrel⟩
+        obtain ⟨ho, hrel⟩ := sim_req hr.1 hl' n hnt
+        refine ⟨?_, hrel, hr.2⟩
         simp only [ho]
         cases hc : (a'.st.cur.requireMem n).2 with
         | ok => rfl
         | crash => rfl
         | terminated => exact absurd hc hnt
       | relMem n =>
-        have hn : n.toNat ≤ b := by unfold Item.localRel at hlr; exact hlr
-        have hu : a.st.cur.used = a'.st.cur.used := hr.used
-        rw [runItem_op, runItem_op, step_relMem_local a'.st n hr.hmem0 (by omega),
-          step_relMem_local a.st n hr.hmem_ne (by rw [hu]; omega)]
-        refine ⟨rfl, ?_, hr.status, hr.stop, hr.flags, hr.tc, hr.tm, hr.hcpu, hr.hms, hr.scpu, hr.sms, hr.hmem, hr.hmem0⟩
-        show ({ a.st.cur.used with Memory := a.st.cur.used.Memory - n } : RuntimeResources) =
-          { a'.st.cur.used with Memory := a'.st.cur.used.Memory - n }
-        rw [hu]
+        rw [runItem_op, runItem_op]
+        obtain ⟨h1, h2, h3⟩ := sim_release hr.2 n hr.1
+        have hst : step a.st (.relMem n) = ((⟨(releaseStack a.st.cur a.st.parents n).1.1,
+            (releaseStack a.st.cur a.st.parents n).1.2⟩ : St), (releaseStack a.st.cur a.st.parents n).2) := rfl
+        have hst' : step a'.st (.relMem n) = ((⟨(releaseStack a'.st.cur a'.st.parents n).1.1,
+            (releaseStack a'.st.cur a'.st.parents n).1.2⟩ : St), (releaseStack a'.st.cur a'.st.parents n).2) := rfl
+        rw [hst, hst']
+        refine ⟨?_, h2, h3⟩
+        simp only [h1]
+        cases (releaseStack a'.st.cur a'.st.parents n).2 <;> rfl
       | push d => simp [Item.pcallMem] at hw
       | pop => simp [Item.pcallMem] at hw
       | reqCpu n => simp [Item.pcallMem] at hw
@@ -921,70 +889,54 @@ mutual
       have hw' : d = CtxDef.none ∧ bodyPcallMem body = true := by
         have := hw; unfold Item.pcallMem at this; simpa using this
       obtain ⟨rfl, hwb⟩ := hw'
-      have hlrb : bodyLocalRel B 0 body := by unfold Item.localRel at hlr; exact hlr
       have hwf := bodyPcallMem_wf body hwb
-      have hl : a.st.cur.live = true := by rw [hr.live]; exact hl'
+      have hl : a.st.cur.live = true := by rw [hr.1.live]; exact hl'
       have hi0 : Inv (push a.st CtxDef.none) := inv_step (.push CtxDef.none) hi hl
       have hi0' : Inv (push a'.st CtxDef.none) := inv_step (.push CtxDef.none) hi' hl'
       have gb := good_body { a with st := push a.st CtxDef.none } body hwf hi0 rfl
       have gb' := good_body { a' with st := push a'.st CtxDef.none } body hwf hi0' rfl
-      have hr0 : RelS δ (push a.st CtxDef.none) (push a'.st CtxDef.none) := relF_child hr hi'.1
-      have hB' : a'.st.cur.hard.Memory.toNat ≤ B := by have := hr.hmem; omega
-      have hBc : (a.st.cur.child CtxDef.none).hard.Memory.toNat ≤ B :=
-        Nat.le_trans (child_none_mem_le a.st.cur) hB
-      have hBc' : (a'.st.cur.child CtxDef.none).hard.Memory.toNat ≤ B :=
-        Nat.le_trans (child_none_mem_le a'.st.cur) hB'
-      have mb' := memrun_body B 0 { a' with st := push a'.st CtxDef.none } body hwb hlrb hi0' rfl hs'
-        (child_none_mem_ne hi'.1 hr.hmem0) hBc' (Nat.zero_le _)
-      -- no release of the bodies reaches the callers (needed for the propagation and for the pop)
-      have mb := memrun_body B 0 { a with st := push a.st CtxDef.none } body hwb hlrb hi0 rfl
-        (by show a.st.cur.hardStopped = false; rw [hr.hs]; exact hs')
-        (child_none_mem_ne hi.1 hr.hmem_ne) hBc (Nat.zero_le _)
+      have hr0 : RelS δ (push a.st CtxDef.none) (push a'.st CtxDef.none) :=
+        ⟨relF_child hr.1 hi'.1, RelL.cons hr.1 hr.2⟩
+      have mb' := memrun_body { a' with st := push a'.st CtxDef.none } body hwb hi0' rfl hs'
+        (child_none_mem_ne hi'.1 hr.1.hmem0)
       -- the body of the primed run is not killed: otherwise the bracket would propagate the termination
       have hnkb : NotKilled (runBody { a' with st := push a'.st CtxDef.none } body).2 := by
         intro res hk
         have := mb'.cause res hk
         subst this
-        have hund : ∀ p' ps', (runBody { a' with st := push a'.st CtxDef.none } body).1.st.parents = p' :: ps' →
-            p'.used.Memory = a'.st.cur.used.Memory := by
-          intro q qs hq
-          have := mb'.parents
-          rw [hq] at this
-          have : q :: qs = a'.st.cur :: a'.st.parents := this
-          injection this with h1 _; rw [h1]
-        exact hnk _ (limitless_bracket_propagates_mem a' CtxDef.none body hwf hi' hl' rfl hr.hmem0 hk hund).1
-      have sb := sim_body δ B 0 { a with st := push a.st CtxDef.none } { a' with st := push a'.st CtxDef.none } body hwb
-        hlrb hr0 hi0 hi0' rfl hs' hBc (Nat.zero_le _) hnkb
+        exact hnk _ (limitless_bracket_propagates_mem a' CtxDef.none body hwf hi' hl' rfl hr.1.hmem0 hk).1
+      have sb := sim_body δ { a with st := push a.st CtxDef.none } { a' with st := push a'.st CtxDef.none } body hwb
+        hr0 hi0 hi0' rfl hs' hnkb
       cases hrb : runBody { a with st := push a.st CtxDef.none } body with
       | mk a1 ex =>
         cases hrb' : runBody { a' with st := push a'.st CtxDef.none } body with
         | mk a1' ex' =>
           rw [hrb, hrb'] at sb
-          rw [hrb] at gb mb
-          rw [hrb'] at gb' hnkb mb'
+          rw [hrb] at gb
+          rw [hrb'] at gb' hnkb
           obtain ⟨he, hrel⟩ := sb
           simp only at he; subst he
-          obtain ⟨p1, ps1, hpe, _, _, _, _, _, _, _, hrun⟩ := call_unfold a CtxDef.none body a1 ex hrb gb hl
+          obtain ⟨p1, ps1, hpe, hlp, _, _, _, _, _, _, hrun⟩ := call_unfold a CtxDef.none body a1 ex hrb gb hl
           obtain ⟨p1', ps1', hpe', _, _, _, _, _, _, _, hrun'⟩ := call_unfold a' CtxDef.none body a1' ex hrb' gb' hl'
-          have e1 : p1 = a.st.cur := by
-            have := mb.parents; rw [hpe] at this
-            have : p1 :: ps1 = a.st.cur :: a.st.parents := this
-            injection this
-          have e1' : p1' = a'.st.cur := by
-            have := mb'.parents; rw [hpe'] at this
-            have : p1' :: ps1' = a'.st.cur :: a'.st.parents := this
-            injection this
-          subst e1 e1'
           rw [hrun, hrun']
           have hab := relS_afterBody ex hrel
-          have hch : RelF δ (charged a.st.cur (afterBody ex a1.st).cur) (charged a'.st.cur (afterBody ex a1'.st).cur) :=
-            relF_charged hr hab.used
+          -- the frames restored by the two pops are related
+          have hpar : RelL δ (p1 :: ps1) (p1' :: ps1') := by
+            have := hrel.2; rw [hpe, hpe'] at this; exact this
+          have hpp : RelF δ p1 p1' ∧ RelL δ ps1 ps1' := by
+            cases hpar with
+            | cons h1 h2 => exact ⟨h1, h2⟩
+            | absorb _ _ h0 =>
+              have : p1.hard.Memory ≠ 0#64 := by rw [hlp.same.1]; exact hr.1.hmem_ne
+              exact absurd h0 this
+          have hch : RelF δ (charged p1 (afterBody ex a1.st).cur) (charged p1' (afterBody ex a1'.st).cur) :=
+            relF_charged hpp.1 hab.1.used
           unfold afterPop
           cases ex with
           | killed res => exact absurd rfl (hnkb res)
-          | done => exact ⟨rfl, hch⟩
-          | error => exact ⟨rfl, hch⟩
-          | crashed => exact ⟨rfl, hch⟩
+          | done => exact ⟨rfl, hch, hpp.2⟩
+          | error => exact ⟨rfl, hch, hpp.2⟩
+          | crashed => exact ⟨rfl, hch, hpp.2⟩
 end
 
 end GoluaVerif.Proofs.Propagate
